@@ -279,6 +279,27 @@ def run(ctx):
                                   % (mvar, pr[1]), node=unguarded[0], witness="reply `NO`")
                 else:
                     ctx.holds("Q4", "%s: %r accepts every RFC tail and the empty tail" % (ep.qualname, pr[1]))
+    # the response-code group ends at the first ")": otherwise a ")" in the human-readable text is swallowed into errcode
+    ctx.rule("Q6", "the response-code group of the error pattern cannot extend past the first `)`")
+    for n in walk_no_nested(ep.node):
+        if isinstance(n, ast.Assign) and isinstance(n.value, ast.Call) and isinstance(n.value.func, ast.Attribute) and n.value.func.attr == "match":
+            pr = R.pattern_of(n.value.func.value, ep)
+            if not pr or b"\\(" not in pr[1].replace(b"\\\\", b""):
+                continue
+            try:
+                PP = rx.Pattern(pr[1], pr[2])
+                g1 = _group_sub(PP, 1)
+            except rx.Undecidable as e:
+                raise AnalysisError("Q6", str(e))
+            if g1 is None:
+                continue
+            d = rx.language_diff(g1, rx.Pattern(rb"\([^)]*\)"), mode="subset")
+            if d is None:
+                ctx.holds("Q6", "code group of %r is `(` non-`)` `)`" % pr[1])
+            else:
+                ctx.violation("Q6", ep, "code-group-greedy", "the response-code group of %r can match %r: a `)` inside the text of a NO reply is "
+                              "taken as the end of the code" % (pr[1], d[0]), node=n,
+                              witness='`NO (QUOTA/MAXSIZE) "too large (limit 10)"`: errcode swallows the text, errmsg is empty')
     # both attributes set on every normal path
     for attr in ("errcode", "errmsg"):
         stores = [x for x in cfge.stmt_nodes() if isinstance(x.ast, ast.Assign) and any(
